@@ -214,6 +214,100 @@ fn emitted_many(dir: &std::path::Path, argv: &[String], sites: &[(usize, usize, 
     None
 }
 
+/// a request with every `allow` attribute cut out: (bytes, offsets in the result where one was removed).  An attribute
+/// is the struct {directive: string, args: Sequence<string>} closed by the tag end marker; the baseline program holds
+/// no allow attribute (and no other string "allow"), so every occurrence of the directive is a suppression.
+fn strip_allow_attributes(req: &[u8]) -> (Vec<u8>, Vec<usize>) {
+    let attr_len = |at: usize| -> Option<usize> {
+        if !req[at..].starts_with(b"\x14allow") {
+            return None;
+        }
+        let mut j = at + 6;
+        let n = *req.get(j)?;
+        if n % 4 != 0 {
+            return None;
+        }
+        j += 1;
+        for _ in 0..(n >> 2) {
+            let l = *req.get(j)?;
+            if l % 4 != 0 {
+                return None;
+            }
+            j += 1 + (l >> 2) as usize;
+        }
+        (*req.get(j)? == 0xFC).then_some(j + 1 - at)
+    };
+    let (mut out, mut cuts, mut i) = (Vec::with_capacity(req.len()), Vec::new(), 0);
+    while i < req.len() {
+        if let Some(l) = attr_len(i) {
+            cuts.push(out.len());
+            i += l;
+        } else {
+            out.push(req[i]);
+            i += 1;
+        }
+    }
+    (out, cuts)
+}
+
+/// C13 at the process boundary: the real binary run on the many-lints program without and with the suppressions, with a
+/// capturing generator.  The exit status is the same (0: lints are warnings), the generator runs both times and the
+/// request differs by the allow attributes themselves and nothing else; with one more file that holds an error both
+/// runs exit non-zero with the same error records and the generator is not started, whatever is allowed.
+fn request_many(dir: &std::path::Path, argv: &[String], argv_supp: &[String], attrs: usize) -> Option<Value> {
+    use crate::fam_driver::{fakegen_bin, run_limited, slicec_bin};
+    let gen = dir.join("gen");
+    if std::fs::hard_link(fakegen_bin(), &gen).is_err() {
+        let _ = std::fs::copy(fakegen_bin(), &gen);
+    }
+    let _ = std::fs::write(dir.join("gen.json"), json!({"beh": "ok0", "index": 1}).to_string());
+    let run = |sub: &str, av: &[String], extra: &[&str]| {
+        let _ = std::fs::remove_file(dir.join("gen.stdin"));
+        let _ = std::fs::remove_file(dir.join("gen.started"));
+        let mut a: Vec<String> = av[1..].to_vec();
+        a.extend(extra.iter().map(|x| x.to_string()));
+        a.extend(["--diagnostic-format".to_owned(), "json".to_owned(), "-G".to_owned(), gen.display().to_string()]);
+        let res = run_limited(std::process::Command::new(slicec_bin()).args(&a).current_dir(dir.join(sub)), std::time::Duration::from_secs(20));
+        let errors: Vec<String> = String::from_utf8_lossy(&res.stderr).lines().filter(|l| serde_json::from_str::<Value>(l).map(|v| v["severity"] == "error").unwrap_or(true)).map(|l| l.to_owned()).collect();
+        (res.status.and_then(|s| s.code()), std::fs::read(dir.join("gen.stdin")).ok(), dir.join("gen.started").exists(), errors, res.timed_out)
+    };
+    let base = run("b", argv, &[]);
+    let supp = run("s", argv_supp, &[]);
+    if base.4 || supp.4 {
+        return Some(json!({"kind": "hang", "what": "the binary did not finish within 20 s of CPU time"}));
+    }
+    if base.0 != Some(0) || base.1.is_none() || !base.3.is_empty() {
+        return Some(json!({"kind": "harness", "what": "the binary does not accept the template and run its generator", "exit": base.0, "errors": base.3}));
+    }
+    if supp.0 != base.0 || !supp.3.is_empty() {
+        return Some(mismatch("exit status and error records of the run with the suppressions (those of the run without)", json!([base.0, base.3]), json!([supp.0, supp.3])));
+    }
+    let (Some(b), Some(s)) = (base.1, supp.1) else {
+        return Some(json!({"kind": "mismatch", "what": "with the suppressions the generator was not run (or got nothing)"}));
+    };
+    let (stripped, cuts) = strip_allow_attributes(&s);
+    let same_but_counts = stripped.len() == b.len() && {
+        let d: Vec<usize> = (0..b.len()).filter(|&i| stripped[i] != b[i]).collect();
+        d.iter().all(|&i| stripped[i] > b[i] && (stripped[i] - b[i]) % 4 == 0 && cuts.iter().any(|&c| c > i)) && d.iter().map(|&i| ((stripped[i] - b[i]) / 4) as usize).sum::<usize>() == cuts.len()
+    };
+    if cuts.len() != attrs || !same_but_counts {
+        let at = (0..b.len().min(stripped.len())).find(|&i| stripped[i] != b[i]);
+        return Some(json!({"kind": "mismatch", "what": "the generator request changed beyond the allow attributes themselves", "allow_attributes_written": attrs, "found_in_request": cuts.len(),
+                           "lengths": [b.len(), s.len(), stripped.len()], "first_difference_at": at}));
+    }
+    // an error is an error whatever is allowed
+    let _ = std::fs::write(dir.join("b").join("err.slice"), "module Err\nstruct Z { a: Missing }\n");
+    let _ = std::fs::write(dir.join("s").join("err.slice"), "module Err\nstruct Z { a: Missing }\n");
+    let (be, se) = (run("b", argv, &["err.slice"]), run("s", argv_supp, &["err.slice"]));
+    if be.0 == Some(0) || be.0.is_none() || be.2 || be.3.len() != 1 {
+        return Some(json!({"kind": "harness", "what": "the binary does not reject the template with the erroneous file", "exit": be.0, "errors": be.3}));
+    }
+    if se.0 != be.0 || se.3 != be.3 || se.2 {
+        return Some(mismatch("exit status, error records and generator start of the erroneous run with the suppressions (those of the run without)", json!([be.0, be.3, be.2]), json!([se.0, se.3, se.2])));
+    }
+    None
+}
+
 impl Lints {
     fn run_many(&mut self, case: &Value) -> Outcome {
         self.counter += 1;
@@ -260,10 +354,13 @@ impl Lints {
         }
         let rendered = json!({"a.slice": shown_texts[0], "twin.slice": shown_texts[1], "argv": argv_supp});
         let key = hash_str(&rendered.to_string());
-        let emit_mode = std::env::var("VERIF_LINTS_MODE").map(|m| m == "emit").unwrap_or(false);
+        let mode = std::env::var("VERIF_LINTS_MODE").unwrap_or_default();
         let fail = (|| {
-            if emit_mode {
+            if mode == "emit" {
                 return emitted_many(&dir.join("s"), &argv_supp, &sites, case);
+            }
+            if mode == "request" {
+                return request_many(&dir, &argv, &argv_supp, supp.keys().filter(|k| k.as_str() != "cli" && !args_of(k).is_empty()).count());
             }
             let base = match compile(&dir.join("b"), &argv) {
                 Ok(r) => r,
